@@ -276,6 +276,7 @@ package types
 
 //@ contract interface SessionTypeInitial.toSessionType(self, mode)
 //@   ensures C16.conv: conv(self, mode, result)
+//@   ensures C16.convNonNil: result != nil
 //@   ensures C16.annot: unsetM(mode) || is(self, ExplicitModeTypeInitial) || tag(modeOf(result)) == tag(mode)
 //@   safety C09
 
